@@ -49,3 +49,48 @@ def u8_gt_never_called(repo):
                     if ".gt(" in ln and "i8x" not in ln and not re.search(r"\b(zero|v|nine)\.gt\(", ln):
                         bad.append(f"{os.path.relpath(p, repo)}:{i}")
     return (not bad, "; ".join(bad) if bad else "all .gt( call sites are on i8x32 values (do_skip_number)")
+
+
+def _fn_items(repo, rel):
+    src = open(os.path.join(repo, rel), encoding="utf-8").read()
+    return [(it, hdr) for it, hdr in rsx.find_items(src, rel) if it.kind == "fn"]
+
+
+def depth_guard_held(repo):
+    """Every recursion guard must stay alive while the nested value is visited: a guard bound with
+    `let _ =` is dropped at once (and its Result discarded), so the depth budget never decreases.
+    Returns one violation per offending function."""
+    bad = []
+    for it, hdr in _fn_items(repo, "src/serde/de.rs"):
+        n = len(re.findall(r"let\s+_\s*=\s*DepthGuard::guard\(", it.text))
+        if n:
+            bad.append(f"src/serde/de.rs fn {it.name}: {n} guard(s) dropped immediately (`let _ = DepthGuard::guard(..)`)")
+    return bad
+
+
+def parser_recursion_bounded(repo):
+    """Stack use must be bounded: every recursive cycle among the parser's methods needs a depth budget
+    (a parameter or field that is decremented). Returns the functions on unbounded recursive cycles."""
+    items = {it.name: it for it, hdr in _fn_items(repo, "src/parser.rs")}
+    calls = {}
+    for n, it in items.items():
+        body = it.text[it.body_open or 0:]
+        calls[n] = set(m.group(1) for m in re.finditer(r"\bself\s*\.\s*([a-z_0-9]+)\s*\(", body) if m.group(1) in items)
+    # functions that can reach themselves
+    rec = []
+    for n in items:
+        seen, stack = set(), list(calls[n])
+        while stack:
+            x = stack.pop()
+            if x == n:
+                rec.append(n)
+                break
+            if x not in seen:
+                seen.add(x)
+                stack.extend(calls[x])
+    bad = []
+    for n in sorted(rec):
+        txt = items[n].text
+        if not re.search(r"depth", txt):
+            bad.append(f"src/parser.rs fn {n}: on a recursive cycle without a depth budget")
+    return bad
